@@ -471,8 +471,12 @@ def run(prop, tier, replay=None):
 
     def tlc_job(nm):
         j = jobs[nm]
-        return nm, tlc.run('LifecycleMC', cfg_text=j['cfg'], workers=j['workers'], env=j.get('env'), name=nm,
-                           must_complete=False, timeout=3000)
+        for attempt in (1, 2):
+            r = tlc.run('LifecycleMC', cfg_text=j['cfg'], workers=j['workers'], env=j.get('env'), name=nm,
+                        must_complete=False, timeout=3000)
+            if r.error is not None or r.completed:
+                break                  # a JVM that died without a verdict (machine under load) is run once more
+        return nm, r
     with ThreadPoolExecutor(max_workers=len(jobs) if tier == 'quick' else 4) as ex:
         results = dict(ex.map(tlc_job, list(jobs)))
     wit = {}
